@@ -24,9 +24,9 @@ CLAIMED = {
  'C02': ('Kernel-checked theorems for token lists of any length: the generated opcode dictionaries are sound w.r.t. the consensus numbering and '
          'mutually inverse (evaluated over the whole table), the generated _op_push_data/_push_integer equal the minimal-push / script-number Spec '
          'for every length, and for the hand model of Script.to_bytes / from_raw: assembly = consensus encoding, disassembly renders every token, '
-         're-assembly reproduces the bytes (both has_segwit values). Script.to_bytes itself is re-translated on every run and proved equal to the model '
-         'on every token list (tier T), so assembly = consensus encoding is a theorem about the translated source; Script.from_raw is a hand model tied to the code by the correspondence run.',
-         NOTE_COMMON, 'Lean 4 proof over translated source (assembly, push forms) and hand model (disassembly) + differential correspondence', '6/C02'),
+         're-assembly reproduces the bytes (both has_segwit values). Script.to_bytes and Script.from_raw themselves are re-translated on every run and proved equal to the model '
+         'on every token list / byte string (tier T), so assembly = consensus encoding and the assemble-disassemble-assemble round trip are theorems about the translated source; the correspondence run additionally executes model and generated code against the implementation.',
+         NOTE_COMMON + 'A token is an opcode name, a hex string (modelled by the bytes it denotes) or an int.', 'Lean 4 proof over translated source + differential correspondence', '6/C02'),
  'C01': ('Kernel-checked theorems for all well-formed transactions (any counts, coinbase/legacy/segwit/mixed, empty stacks anywhere): '
          'Model.Tx.toBytes = the BIP144/legacy wire Spec, parse(encode t) renders t field for field, re-encoding the parse gives the same bytes, '
          'txid/wtxid are the reversed double-SHA256 of the stripped/full encoding (SHA-256 a parameter). The four serialisers (TxWitnessInput/TxOutput/TxInput/'
